@@ -1496,7 +1496,11 @@ def pid_exists(pid):
         # to do here.
         return pid in pids()
     else:
-        return _psplatform.pid_exists(pid)
+        try:
+            return _psplatform.pid_exists(pid)
+        except OverflowError:
+            # pid is too big to be a PID on this platform
+            return False
 
 
 _pmap = {}
